@@ -329,6 +329,30 @@ func TestC09(t *testing.T) {
 		if kind, msg := checkVerdict(pos); kind != "" {
 			r.Violate(rep.Sig{"negative": pos.Note, "kind": kind}, pos.Note+": "+msg, pos)
 		}
+		// public = upper-case initial letter, whatever else the name contains: spellings of both kinds, each used inside its
+		// own file (always allowed) and through the alias (allowed exactly for the public ones)
+		for _, sp := range []struct {
+			name   string
+			public bool
+		}{{"priv", false}, {"p", false}, {"pUB", false}, {"_hidden", false}, {"_Hidden", false}, {"_", false}, {"__x", false}, {"x9", false}, {"p_Q", false},
+			{"Pub", true}, {"P", true}, {"P9", true}, {"P_q", true}, {"PUB", true}, {"Zz", true}} {
+			if sp.name == "_" {
+				continue // the blank identifier is no function name in Go; not asserted either way
+			}
+			libSrc := "func " + sp.name + "() int {\n\treturn 41\n}\nfunc Wrap() int {\n\treturn " + sp.name + "() + 1\n}\n"
+			for _, use := range []struct{ main, note, expect string }{
+				{"import l \"lib.tsh\"\nprint(l.Wrap())\n", "own-file-use", "accept"},
+				{"import l \"lib.tsh\"\nprint(l." + sp.name + "())\n", "through-alias", map[bool]string{true: "accept", false: "reject"}[sp.public]},
+			} {
+				c := verdictCase{Kind: "verdict", Property: "C09", Files: map[string]string{"main.tsh": use.main, "lib.tsh": libSrc}, Main: "main.tsh", Expect: use.expect, Note: "spelling " + sp.name + " " + use.note}
+				r.Eval()
+				r.NonTrivial(use.main+libSrc, nil)
+				r.Class("visibility:" + use.note + ":" + use.expect)
+				if kind, msg := checkVerdict(c); kind != "" {
+					r.Violate(rep.Sig{"visibility": sp.name, "use": use.note, "kind": kind}, c.Note+": "+msg, c)
+				}
+			}
+		}
 	}
 	_ = run.Bash
 }
